@@ -412,7 +412,7 @@ class Session:
 
     # ---- functions ----------------------------------------------------------------------------
     def fn(self, rel, header, name, lean, self_type=None, op=None, unop=None, trait=None, flatten_self=None,
-           generics=None, tier=1, register=True):
+           generics=None, tier=1, register=True, drop_params=()):
         """translate `fn name` found in `header`.  op=('+', rhs type): register as the operator impl;
         trait='Tweenable::interpolate': register as that trait fn at `self_type`;
         flatten_self={field: rust type}: the item takes these fields of `self` instead of `self`;
@@ -428,6 +428,8 @@ class Session:
             lo.header = header
             env, binders, params = {}, list(implicit) + [f"({d} : {t})" for d, t in extra], []
             for pn, pt, _ in fd["params"]:
+                if pn in drop_params:
+                    continue      # a parameter that only feeds fields the model does not have
                 if pn == "self":
                     if self_type is None:
                         raise X.XlateError(f"{fd['what']}: `self` but no self type given")
@@ -498,6 +500,8 @@ def translate(S):
     S.enum("effect/distortion.rs", "DistortionKind", lean="DistortionKind", head="DistortionKind")
     S.enum("effect/filter.rs", "FilterMode", lean="FilterMode", head="FilterMode")
     S.enum("effect/eq_filter.rs", "EqFilterKind", lean="EqFilterKind", head="EqFilterKind")
+    S.struct("clock/time.rs", "ClockTime", "ClockTime α", {"ticks": ("ticks", "u64"), "fraction": ("fraction", "f64")},
+             dropped=("clock",))
     S.struct("effect/eq_filter.rs", "Coefficients", "EqCoefs α",
              {f: (f, "f64") for f in ("a1", "a2", "a3", "m0", "m1", "m2")})
     S.enum("start_time.rs", "StartTime")
@@ -549,6 +553,12 @@ def translate(S):
     S.fn("clock/clock_speed.rs", "impl ClockSpeed", "as_ticks_per_minute", "clockSpeedAsTicksPerMinute", self_type="ClockSpeed")
     S.fn("clock/clock_speed.rs", "impl Tweenable for ClockSpeed", "interpolate", "clockSpeedInterpolate",
          self_type="ClockSpeed", trait=TW)
+
+    # -- clock time (one clock: the `clock` field is dropped; `u64` is `Nat`, so `+` cannot overflow)
+    S.fn("clock/time.rs", "impl ClockTime", "from_ticks_f64", "clockTimeFromTicksF64", self_type="ClockTime",
+         drop_params=("clock",))
+    S.fn("clock/time.rs", "impl Add<u64> for ClockTime", "add", "clockTimeAddU64", self_type="ClockTime",
+         op=("+", "u64"))
 
     # -- easing, tween, mapping
     S.fn("tween.rs", "impl Easing", "apply", "easingApply", self_type="Easing")
